@@ -18,6 +18,12 @@ class Leaf:
         self.grl, self.go, self.kind, self.const = grl, go, kind, const
 
 
+class Neg:
+    """single-operand "not": logical negation (the repository's own TestParseJSONNegation pins this reading)"""
+    def __init__(self, arg):
+        self.arg, self.kind, self.args = arg, 'bool', [arg]
+
+
 class Bin:
     def __init__(self, op, args):
         self.op, self.args = op, args
@@ -52,6 +58,8 @@ class Bin:
 def go(e):
     if isinstance(e, Leaf):
         return e.go
+    if isinstance(e, Neg):
+        return "verif.Not(%s)" % go(e.arg)
 
     def fl(x, k):
         return x if k == 'float' else "float64(%s)" % x
@@ -79,7 +87,11 @@ def go(e):
 
 def js(e, style):
     """style 0: leaves as plain strings / numbers where allowed; 1: obj/const wrapped"""
+    if isinstance(e, Neg):
+        return {"not": [js(e.arg, style)]}
     if isinstance(e, Leaf):
+        if getattr(e, "jsv", None) is not None:
+            return e.jsv
         if e.const is not None:
             return {"const": e.const} if style == 1 or isinstance(e.const, (bool, str)) else e.const
         return {"obj": e.grl} if style == 1 else e.grl
@@ -91,6 +103,8 @@ def js(e, style):
 
 
 def divisors(e, out):
+    if isinstance(e, Neg):
+        divisors(e.arg, out)
     if isinstance(e, Bin):
         if e.op in ('/', '%'):
             out.extend(e.args[1:])
@@ -104,6 +118,10 @@ B, C = Leaf("F.B", "f.B", 'bool'), Leaf("F.C", "f.C", 'bool')
 C3 = Leaf("3", "int64(3)", 'int', 3)
 C25 = Leaf("2.5", "2.5", 'float', 2.5)
 CT = Leaf("true", "true", 'bool', True)
+CBIG = Leaf("16777217", "int64(16777217)", 'int', 16777217)
+CF7 = Leaf("1234.5678", "1234.5678", 'float', 1234.5678)
+CALL = Leaf("F.IsOpen()", "f.IsOpen()", 'bool')
+CALL.jsv = {"call": ["F.IsOpen"]}
 ALL = ARITH + BIT + CMP + LOG
 cases = []
 seen = set()
@@ -136,6 +154,13 @@ extra = [
     ("depth3-logic", Bin('&&', [Bin('||', [B, Bin('<', [I, J])]), Bin('!=', [Bin('<', [J, K]), C])]), 1),
     ("not-with-one-nested-operand", Bin('!=', [B, Bin('<', [I, J])]), 1),
     ("not-with-two-nested-operands", Bin('!=', [Bin('<', [I, J]), Bin('<', [J, K])]), 1),
+    ("single-not-of-nested-operator", Neg(Bin('<', [I, J])), 1),
+    ("single-not-of-plain-string", Neg(B), 0), ("single-not-of-obj", Neg(B), 1), ("single-not-of-const", Neg(CT), 1),
+    ("single-not-of-call", Neg(CALL), 1), ("single-not-inside-and", Bin('&&', [Neg(B), C]), 1),
+    ("single-not-of-single-not", Neg(Neg(Bin('<', [I, J]))), 1),
+    ("const-int-needs-25-bits", Bin('+', [I, CBIG]), 1), ("const-float-needs-8-digits", Bin('*', [X, CF7]), 1),
+    ("const-float-needs-8-digits-compare", Bin('<', [Bin('+', [X, CF7]), CF7]), 1),
+    ("call-operand", Bin('&&', [CALL, B]), 1),
 ]
 cases += extra
 
